@@ -159,6 +159,7 @@ def run(ctx):
     conflict_rule(ctx)
     blocks_rule(ctx)
     seqkind_rule(ctx)
+    mapkind_rule(ctx)
     decscale_rule(ctx)
     descend_rule(ctx)
     # nothing is written for a unit variant under `null` only when it is the variant that stands for null (shared with C01)
@@ -606,6 +607,36 @@ def blocks_rule(ctx):
            'the first block header is written under `min_len > 0` and nothing stricter: %s' % gok)
     ctx.ob('BLOCKS', 'new/advertised-equals-stored', okw and stored, short_loc(new.span),
            'header count = try_into(min_len): %s; stored count = min_len: %s' % (okw, stored))
+
+
+MAPKIND = 'ser::serializer::struct_or_map::Kind'
+
+
+def mapkind_rule(ctx):
+    """An Avro map is blocks of (key, value) entries: the block step (countdown / one-entry block header) belongs to the
+    *entry*, so it comes before the key; nothing sits between a key and its value.  Per presentation of an entry:
+    serialize_key = step, then the key; serialize_value = the value and nothing else; serialize_entry and a struct
+    field = step, key, value in that order."""
+    f = ctx.f
+    want = {'serialize_key': (1, 1), 'serialize_value': (0, 1), 'serialize_entry': (1, 2), 'serialize_field': (1, 2)}
+    n = 0
+    for b in f.body_list:
+        if b.j['kind'] == 'closure' or b.name not in want or 'ser::serializer::struct_or_map::Serialize' not in b.id or not b.j.get('impl_trait'):
+            continue
+        for r in enum_regions(b, MAPKIND):
+            if set(r.variants) != {'Map'}:
+                continue
+            toks = region_tokens(b, r.blocks, f)
+            steps = [tbb for tok, tb, tbb, t in toks if tok == ('BLOCKSTEP',) and tb is b]
+            vals = [tbb for tok, tb, tbb, t in toks if tok == ('VALUE',) and tb is b]
+            other = sorted({tok for tok, tb, tbb, t in toks if tok not in (('BLOCKSTEP',), ('VALUE',))}, key=str)
+            ws, wv = want[b.name]
+            ok = len(steps) == ws and len(vals) == wv and not other and all(b.dominates(s_, v_) for s_ in steps for v_ in vals)
+            n += 1
+            ctx.touched(b)
+            ctx.ob('MAPKIND', '%s/%s' % (short_fn(fn_label(b)).split(' as ')[-1].replace('>', ''), 'Map'), ok, short_loc(b.span),
+                   '%s on a map: %d block step(s) (want %d), %d key/value write(s) (want %d), the step before them; other output: %s' % (b.name, len(steps), ws, len(vals), wv, other or 'none'))
+    ctx.floor('MAPKIND', 'presentations of a map entry', n, 4)
 
 
 KIND = 'ser::serializer::seq_or_tuple::Kind'
